@@ -136,8 +136,66 @@ def gkls_instance(n, k):
     return dict(messages=msgs, evals=evals, undecided=und, leaves=cells, capped=False)
 
 
+def _build(fam, arg):
+    if fam == "GKLS":
+        from iOpt.problems.GKLS import GKLS
+        return GKLS(*arg)
+    mod, cls = {"Hill": ("hill", "Hill"), "Shekel": ("shekel", "Shekel"), "Shekel4": ("shekel4", "Shekel4"),
+                "Grishagin": ("grishagin", "Grishagin"), "Rastrigin": ("rastrigin", "Rastrigin"),
+                "XSquared": ("xsquared", "XSquared")}[fam]
+    import importlib
+    return getattr(importlib.import_module("iOpt.problems." + mod), cls)(arg)
+
+
+def declared_pass(task):
+    """clause (i) for EVERY member of a family, inside one process and in a fixed order of construction (ascending or
+    descending): the objective at the declared point equals the declared value within 1e-4 - for the member just
+    constructed and, again, for the member constructed before it (members are independent objects)."""
+    fam, args = task["family"], task["args"]
+    msgs, evals = [], 0
+    prev = None
+    for arg in args:
+        try:
+            p = _build(fam, arg)
+        except Exception as e:
+            msgs.append(f"{fam}({arg}): constructor raised {type(e).__name__}: {e}")
+            continue
+        for q, a, again in ((p, arg, False),) + (((prev[0], prev[1], True),) if prev else ()):
+            pt, val = bench.declared(q)
+            try:
+                v = bench.evaluator(q)(pt)
+            except Exception as e:
+                msgs.append(f"{fam}({a}): Calculate at the declared optimum raised {type(e).__name__}: {e}")
+                continue
+            evals += 1
+            if not abs(v - val) <= 1e-4:
+                msgs.append(f"{fam}({a}): objective at the declared optimum point {pt.tolist()} is {v!r}, declared {val!r}"
+                            + (f" (re-evaluated after {fam}({arg}) was constructed)" if again else
+                               f" (members constructed in the order {args[:3]}...)"))
+        prev = (p, arg)
+        if len(msgs) > 4:
+            break
+    return msgs, evals
+
+
+def _neighbours(fam, arg):
+    """members constructed (and dropped) before the instance under test: its successor and its predecessor"""
+    if fam == "GKLS":
+        return [[arg[0], k] for k in (arg[1] + 1, arg[1] - 1) if 1 <= k <= 100]
+    lo, hi = {"Hill": (0, 999), "Shekel": (0, 999), "Grishagin": (1, 100), "Shekel4": (1, 3)}.get(fam, (1, 0))
+    return [k for k in (arg + 1, arg - 1) if lo <= k <= hi]
+
+
 def instance(task):
     fam, arg = task["family"], task["arg"]
+    # history: the neighbouring members of the family are constructed first, in the same process - a member must not
+    # depend on what was constructed before it
+    keep = []
+    for nb in _neighbours(fam, arg):
+        try:
+            keep.append(_build(fam, nb))
+        except Exception:
+            pass
     try:
         if fam == "GKLS":
             r = gkls_instance(*arg)
@@ -188,8 +246,25 @@ def run(ctx):
             capped.append(f"{fam}({t['arg']})")
         for m in r["messages"]:
             res.add_violation(dict(driver="instance", family=fam, arg=t["arg"], message=m, sig={}))
+    # clause (i) for every member of every family, in both construction orders, each order in a process of its own
+    from mc.common import pmap_fresh
+    fams = {"Hill": list(range(1000)), "Shekel": list(range(1000)), "Grishagin": list(range(1, 101)), "Shekel4": [1, 2, 3],
+            "Rastrigin": list(range(1, 9)), "XSquared": list(range(1, 9))}
+    for n in (2, 3, 4, 5):
+        fams[f"GKLS{n}"] = [[n, k] for k in range(1, 101)]
+    dtasks = []
+    for f, args in fams.items():
+        fam = "GKLS" if f.startswith("GKLS") else f
+        dtasks.append(dict(family=fam, args=args))
+        dtasks.append(dict(family=fam, args=args[::-1]))
+    declared_evals = 0
+    for t, (msgs, ne) in zip(dtasks, pmap_fresh(declared_pass, dtasks)):
+        declared_evals += ne
+        evals += ne
+        for m in msgs:
+            res.add_violation(dict(driver="declared", family=t["family"], args=t["args"], message=m, sig={}))
     res.cov = dict(
-        evaluations=evals, distinct_nontrivial=len(tasks),
+        evaluations=evals, distinct_nontrivial=len(tasks), declared_point_evaluations=declared_evals,
         rule="one certified cover per benchmark instance (declared value at the declared point; no cell of the box below "
              "declared - 2e-3*max(1,|f*|); every cell farther than 0.5% of the side from the declared point strictly above "
              "the best value near it); distinct non-trivial = instances; evaluations = real Calculate calls",
@@ -206,4 +281,6 @@ def run(ctx):
 
 
 def replay(rec):
+    if rec.get("driver") == "declared":
+        return declared_pass(dict(family=rec["family"], args=rec["args"]))[0]
     return instance(dict(family=rec["family"], arg=rec["arg"]))["messages"]
